@@ -995,6 +995,63 @@ def crossing_at(rng):
     return out
 
 
+def comb_face(k, lat0, west=True, h=3.0, g=3.0):
+    """a non-convex face (a comb: a spine with k arms; k=1 rectangle, k=2 a C / U, k=3 an E) whose k arms all reach
+    across the antimeridian: 2k boundary segments cross it, so cutting it gives k + 1 pieces.  Counter-clockwise,
+    simple in the lon/lat plane and on the sphere (arms and gaps are 3 deg high, far more than the great-circle
+    sag of a 14 deg long side near the equator).  `west`: spine on the west side (lon 170..173, arms to 184) or
+    mirrored (spine at -170..-173, arms to -184)."""
+    x0, x1, xa = 170.0, 173.0, 184.0
+    pts = [(x0, lat0)]
+    y = lat0
+    for j in range(k):
+        pts += [(xa, y), (xa, y + h)]
+        if j < k - 1:
+            pts += [(x1, y + h), (x1, y + h + g)]
+            y += h + g
+    pts.append((x0, y + h))
+    if not west:
+        pts = [(-x, yy) for x, yy in pts][::-1]  # mirror and restore the counter-clockwise order
+    return [float(wrap(x)) for x, _ in pts], [yy for _, yy in pts]
+
+
+def combs(rng, big):
+    """grids with a non-convex crossing face of 2 / 4 / 6 crossing segments (2 / 3 / 4 pieces) placed before, between
+    and after ordinary faces and another crossing face — every order of the four faces for the 3-piece comb"""
+    import itertools
+
+    def grid(blocks, order):
+        lon, lat, faces = [], [], []
+        for b in order:
+            lo, la = blocks[b]
+            faces.append(list(range(len(lon), len(lon) + len(lo))))
+            lon += lo
+            lat += la
+        return faces, np.array(lon), np.array(lat), "comb"
+
+    def convex(c, clat, m, r):
+        a0 = rng.uniform(0, 360)
+        return ([float(wrap(c + r * math.cos(math.radians(a0 + 360.0 * j / m)))) for j in range(m)],
+                [clat + r * math.sin(math.radians(a0 + 360.0 * j / m)) for j in range(m)])
+
+    out = []
+    for k in (2, 3, 1):
+        blocks = [comb_face(k, rng.uniform(-14.0, -10.0), west=rng.random() < 0.5),
+                  convex(rng.choice([-1, 1]) * rng.uniform(177, 179.5), rng.uniform(32, 40), 4, 5.0),
+                  convex(rng.uniform(-60, 60), rng.uniform(-40, 40), 3, 6.0),
+                  convex(rng.uniform(80, 140), rng.uniform(-40, 40), 5, 6.0)]
+        perms = list(itertools.permutations(range(4)))
+        if k != 2 and not big:
+            perms = [perms[0], perms[-1]] + rng.sample(perms[1:-1], 4 if k == 3 else 1)
+        out += [grid(blocks, perm) for perm in perms]
+    # two combs (3 and 4 pieces) and two ordinary faces, a few orders
+    blocks = [comb_face(2, -13.0, west=True), comb_face(3, 20.0, west=False),
+              convex(rng.uniform(-60, 60), rng.uniform(-40, -20), 3, 6.0), convex(rng.uniform(80, 140), 0.0, 6, 6.0)]
+    perms = list(itertools.permutations(range(4)))
+    out += [grid(blocks, perm) for perm in (perms if big else [perms[0], perms[7], perms[16], perms[-1]])]
+    return out
+
+
 def exact180(rng):
     """faces with a boundary segment spanning EXACTLY 180 deg of longitude ("at least 180" in the property),
     next to ordinary ones; all longitudes are exact in float32"""
@@ -1016,6 +1073,7 @@ def mesh_stream(ctx, rng, big):
         out.append(strip(rng, k))
     out.append(exact180(rng))
     out += crossing_at(rng)
+    out += combs(rng, big)
     out += [strip(rng, rng.randint(2, 4), clockwise=True) for _ in range(ctx.n(2, 6))]
     zoo = meshes.zoo(rng, big=False)
     zoo += [meshes.patch(rng.choice([2, 3]), 2, lon0=rng.choice([168.0, 171.0, -179.0]), lat0=rng.choice([-20, 40])),
@@ -1117,15 +1175,17 @@ def run(ctx):
         singles = [o for o in singles if not (PE[o["pe"]] == "split" and o["proj"] in nosplit)]
         if kind == "crossing-at" and not big:
             singles = [o for o in singles if PE[o["pe"]] != "ignore" and o["proj"] in (0, 3)]
+        if kind == "comb" and not big:
+            singles = [o for o in singles if o["proj"] == 0]
         if t.n > 8 and not big:
             singles = rng.sample(singles, len(singles) // 3)
         for op in singles:
             report(ctx, ux, t, [op], "single", memo)
         # 2. histories
         hs = []
-        if (mi % 3 == 0 or t.n <= 6) and not (kind == "crossing-at" and not big):
+        if (mi % 3 == 0 or t.n <= 6) and not (kind in ("crossing-at", "comb") and not big):
             hs += [h for h in directed_histories() if all(o["proj"] in projs for o in h)]
-        for _ in range((1 if kind == "crossing-at" and not big else n_hist) if t.n <= 30 else max(1, n_hist // 3)):
+        for _ in range((1 if kind in ("crossing-at", "comb") and not big else n_hist) if t.n <= 30 else max(1, n_hist // 3)):
             h = [rand_op(rng) for _ in range(rng.randint(2, 7))]
             hs.append([dict(o, proj=o["proj"] if o["proj"] in projs else 0) for o in h])
         for h in hs:
